@@ -231,7 +231,8 @@ func (x *Exec) raceRelease(key interface{}, join bool) {
 	}
 }
 
-type rdKey struct{ c *Cell } // reader-release clock of an RWMutex
+type rdKey struct{ c *Cell }      // reader-release clock of an RWMutex
+type recvSide struct{ ch *ChanV } // what receivers publish to later senders of a buffered channel
 
 // raceReport turns the races found on this path into violations (called by vndRaceCheck at the end of a harness).
 func (x *Exec) raceReport() {
